@@ -48,6 +48,9 @@ def yaml_text() -> str:
     # definitions whose own field names are the keys of the header-plus-data layout
     lines += ["  VHD:", "    id: 6101", "    fields:", "      header: double", "      data: double"]
     lines += ["  VHD2:", "    id: 6102", "    fields:", "      header: VSUB", "      data: VSUB"]
+    # long arrays (more elements than any array of the core definitions)
+    lines += ["  VLONG:", "    id: 6105", "    fields:", "      w_uint64: uint64[40]", "      w_int64: int64[33]", "      w_uint32: uint32[32]", "      w_int16: int16[36]",
+              "      w_uint8: uint8[64]", "      w_double: double[36]", "      w_float: float[40]", "      w_char: char[64]", "      w_byte: byte[40]"]
     # field names that begin (or begin twice, or end) with an underscore
     lines += ["  VUS:", "    id: 6104", "    fields:", "      _a: int32", "      __b: int16", "      _c_: int16", "      d_: double", "      _n: VUSS", "      _arr: VUSS[2]"]
     lines += ["  VHD3:", "    id: 6103", "    fields:", "      data: int16[2]", "      header: char[4]", "      more: int32"]
